@@ -43,6 +43,11 @@ Step(e) ==
                                                           << s.added \ s.closed # {}, "C17" >>,    \* ... or a connection still open
                                                           << s.inh # {}, "C17" >>,                 \* ... or a handler still running
                                                           << ~s.cancelled /\ ~s.opclosed, "C14" >> })]   \* the accept loop gave up without being told to
+     \* a reading taken while Serve runs and every goroutine is parked: the routines gauge counts exactly the connection
+     \* goroutines still running (Lifecycle!GaugeTracksLive); with none left all four are back at rest (Lifecycle!AtRestWhenIdle)
+     [] e.e = "rest"   -> [s EXCEPT !.bad = @ \cup Tags({ << e.gs < 0 \/ e.gh < 0 \/ e.ga < 0 \/ e.gr < 0, "C20" >>,
+                                                          << e.quiet /\ ~s.ret /\ e.gr # Cardinality(s.added \ s.done), "C20" >>,
+                                                          << e.quiet /\ s.added \ s.done = {} /\ (e.gs # 0 \/ e.gh # 0 \/ e.ga # 0 \/ e.gr # 0), "C20" >> })]
      [] e.e = "fin"    -> [s EXCEPT !.bad = @ \cup Tags({ << e.gs < 0 \/ e.gh < 0 \/ e.ga < 0 \/ e.gr < 0, "C20" >>,
                                                           << e.returned /\ (e.gs # 0 \/ e.gh # 0 \/ e.ga # 0 \/ e.gr # 0), "C20" >> })]
      [] OTHER -> s
